@@ -31,7 +31,7 @@ PT_TOL = 1e-9
 
 def floors(tier):
     return {"judged": 3000, "partition_none_free": 50, "partition_some_free": 1000, "partition_all_free": 300,
-            "binding_truncation": 300, "intercepted_calls": 300, "inputs_with_idle_free_variables": 300, "inputs_in_tiny_length_units_with_memory": 150, "restarted_runs": 20, "restarted_runs_with_gradient_scaler": 8, "restarted_runs_from_a_checkpoint_whose_iteration_counter_was_reset": 6, "runs_with_single_precision_gradient": 10, "inputs_with_single_precision_gradient_array": 300, "inputs_with_a_tiny_step_component_limiting_the_truncation": 150, "runs_with_callback_editing_the_state_pairs": 20, "runs_with_optimisation_nested_in_the_callback": 20, "descent_checked": 2000, "__nontrivial__": 250}
+            "binding_truncation": 300, "intercepted_calls": 300, "inputs_with_idle_free_variables": 300, "inputs_in_tiny_length_units_with_memory": 150, "restarted_runs": 20, "restarted_runs_with_gradient_scaler": 8, "restarted_runs_from_a_checkpoint_whose_iteration_counter_was_reset": 6, "runs_with_single_precision_gradient": 10, "inputs_with_single_precision_gradient_array": 300, "inputs_whose_memory_was_built_under_a_curvature_threshold_of_one_half_and_more": 150, "inputs_with_a_tiny_step_component_limiting_the_truncation": 150, "runs_with_callback_editing_the_state_pairs": 20, "runs_with_optimisation_nested_in_the_callback": 20, "descent_checked": 2000, "__nontrivial__": 250}
 
 
 def judge_subspace(out, x, xc, g, lb, ub, B, xbar, where, tags, mats=None, c=None):
@@ -219,14 +219,14 @@ def cases(tier, seed):
     nr = 250 if tier == "quick" else 8000
     for i in range(nr):
         yield {"kind": "random", "seed": subseed("C09r", seed, i) % (2**31), "count": 20}
-    nruns = 150 if tier == "quick" else 4000
+    nruns = 400 if tier == "quick" else 8000
     rng = np.random.default_rng(subseed("C09runs", seed))
     fams = ("qp", "qp_quartic", "qp_softplus", "rosenbrock", "styblinski_tang", "rastrigin", "oscillating")  # (badly_scaled was tried: K-matrix conditioning of 1e10 and more, the step is rounding noise in Algorithm 778 as well)
     for i in range(nruns):
         ps = gen.rand_spec(rng, fams, nmax=10, boxes=("mixed", "boxed", "narrow", "lower", "upper", "boxed_degenerate", "none"),
                            starts=("face", "vertex", "outward", "interior"))
         yield {"kind": "run", "problem": ps, "maxcor": int(rng.integers(1, 8)), "maxiter": int(rng.integers(5, 30)),
-               "eps_SY": float(gen.pick(rng, [2.2e-16, 2.2e-16, 1e-3, 1e-2, 0.1, 0.5, 0.9])), "maxls": int(gen.pick(rng, [20, 20, 2, 3])),
+               "eps_SY": float(gen.pick(rng, [2.2e-16, 2.2e-16, 1e-3, 1e-2, 0.1, 0.5, 0.5, 0.9])), "maxls": int(gen.pick(rng, [20, 2, 2, 3])),
                "restart_after": int(rng.integers(2, 8)) if i % 3 == 1 else 0,
                "restart_scaler": float(np.exp(rng.uniform(np.log(1e-3), np.log(1e2)))) if i % 2 == 1 else None,
                "cb_edits_pairs": bool(i % 4 == 2), "cb_nested": bool(i % 4 == 0),
@@ -288,7 +288,10 @@ def run(spec):
                         idle[0] = 0
                         idle = np.unique(idle)
                 xunit = float(gen.pick(rng, [1e-10, 1e-12, 1e-9])) if (j % 7 == 3 and idle is None) else 1.0
-                mm = make_memory(rng, n, npairs, convex=bool(rng.random() < 0.7), idle=idle, xunit=xunit)
+                eps_upd = float(gen.pick(rng, [0.5, 0.7])) if (j % 9 == 4 and idle is None and xunit == 1.0 and npairs >= 1) else None
+                if eps_upd is not None:
+                    out.count("inputs_whose_memory_was_built_under_a_curvature_threshold_of_one_half_and_more")
+                mm = make_memory(rng, n, npairs, convex=bool(rng.random() < 0.7), idle=idle, xunit=xunit, eps_update=eps_upd)
                 if mm is None:
                     out.count("skipped_memory_inconsistent")
                     continue
